@@ -514,6 +514,10 @@ func (g *exprGen) sliceText(cur interface{}) []string {
 		if g.pct(35, label+"Absent") {
 			return nil
 		}
+		if g.pct(6, label+"Extreme") {
+			ext := []string{"9223372036854775807", "-9223372036854775808", "-9223372036854775807", "4611686018427387904", "2147483648", "-2147483649"}
+			return []string{ext[g.n(len(ext), label+"ExtV")]}
+		}
 		v := g.n(2*l+5, label) - l - 2
 		return []string{strconv.Itoa(v)}
 	}
